@@ -423,7 +423,7 @@ Proof.
   apply (stR_sbind tiR tiR_trans).
   - destruct (0 <? _); [|apply tiR_refl].
     assert (F2' : tiR s2 (acked_counts_as_sent s2)).
-    { unfold acked_counts_as_sent. destruct (seq_gt _ _); [ti_same_tac | apply tiR_refl]. }
+    { unfold acked_counts_as_sent. destruct (seq_gt _ _ && seq_lt _ _); [ti_same_tac | apply tiR_refl]. }
     apply (stR_weaken tiR tiR_trans) with (s := acked_counts_as_sent s2); [exact F2'|].
     generalize (acked_counts_as_sent s2). intro s2'.
     destruct (truncate_front _ _) as [tx1 tr].
